@@ -182,12 +182,13 @@ def main(argv):
             lines.append('FAILED-OBLIGATION %s (%s) %s' % (v['id'], v['message'], ('failing inputs: ' + ', '.join(x['name'] + ' [' + x.get('input', '') + '] -> ' + x.get('observed', '') for x in failing)) if failing else ('kani counterexample: %s' % v.get('cex') if v.get('cex') else 'no concrete failing input')))
             lines.append('VIOLATION property=%s replay=%s%s' % (prop, rp, tail))
             rc = 1
-    # ---- thorough tier: additionally run every witness program of the units serving the property on the current tree.
+    # ---- both tiers (the quick tier can opt out with VX_QUICK_NO_SWEEP=1): additionally run every witness program of the
+    # units serving the property on the current tree (concrete runs on the real crates: TESTING, never counted as proved).
     # A concrete input that fails against the real crates is reported even when every obligation was discharged (the
     # contracts stop at the dependency boundary; defect D7 was found this way).  Inputs listed by an open known finding
     # are expected to fail.
     witness_sweep = []
-    if tier == 'thorough' and not os.environ.get('VX_NO_WITNESS'):
+    if (tier == 'thorough' or not os.environ.get('VX_QUICK_NO_SWEEP')) and not os.environ.get('VX_NO_WITNESS'):
         pseudo = [dict(unit=n, fn='*', id='witness::' + n) for n in sorted(units) if units[n].get('witness_programs')]
         wit_all = RP.run_witnesses(REPO, ROOT, units, pseudo, work) if pseudo else {}
         listed = set(sum([k.get('inputs', []) for k in known if k.get('status') == 'open'], []))
